@@ -27,6 +27,17 @@ pub struct EnvOutcome {
     pub inconclusive: Vec<String>,
 }
 
+/// Sessions whose schedule could not be settled within the search budget carry no information either way. A handful
+/// of them (at most 3 or 0.2% of the sessions) are dropped and reported in the evidence; more make the run inconclusive.
+pub fn dropped_sessions_verdict(inc: &[String], sessions: u64) -> Option<String> {
+    let allowed = 3u64.max(sessions / 500);
+    if inc.len() as u64 > allowed {
+        Some(format!("{} of {} sessions inconclusive (more than the {} tolerated): {}", inc.len(), sessions, allowed, inc[0]))
+    } else {
+        None
+    }
+}
+
 fn run_session_dyn(cfg: &SessionCfg, cs: &mut EnvCensus, out: &mut SessionOut) -> Result<(), EnvFailure> {
     fn go<E: SimEnv>(cfg: &SessionCfg, cs: &mut EnvCensus, out: &mut SessionOut) -> Result<(), EnvFailure> {
         session::<E>(cfg, cs, out)
@@ -129,8 +140,8 @@ pub fn c08(ctx: &Ctx) -> i32 {
         ("multi_asset_sessions", c.multi_asset_sessions, 100),
         ("steps_while_disabled", c.steps_while_disabled, 100),
     ]);
-    if inconclusive.is_none() && !out.inconclusive.is_empty() {
-        inconclusive = Some(format!("{} sessions inconclusive: {}", out.inconclusive.len(), out.inconclusive[0]));
+    if inconclusive.is_none() {
+        inconclusive = dropped_sessions_verdict(&out.inconclusive, c.sessions);
     }
     let cov = json!({
         "evaluations": c.steps,
@@ -139,6 +150,7 @@ pub fn c08(ctx: &Ctx) -> i32 {
         "samples": out.samples,
         "census": c,
         "sessions": c.sessions,
+        "sessions_dropped_as_inconclusive": out.inconclusive.len(),
     });
     ctx.finish("exploration", cov, env_assumptions(), out.violations, inconclusive)
 }
@@ -157,6 +169,7 @@ pub fn c10(ctx: &Ctx) -> i32 {
         "samples": out.samples,
         "census": c,
         "sessions": c.sessions,
+        "sessions_dropped_as_inconclusive": out.inconclusive.len(),
     });
     ctx.finish("exploration", cov, env_assumptions(), out.violations, inconclusive)
 }
@@ -173,6 +186,7 @@ pub fn c11(ctx: &Ctx) -> i32 {
         "samples": out.samples,
         "census": c,
         "sessions": c.sessions,
+        "sessions_dropped_as_inconclusive": out.inconclusive.len(),
     });
     ctx.finish("exploration", cov, env_assumptions(), out.violations, inconclusive)
 }
